@@ -5,7 +5,7 @@ import spec
 from spec import hex_of
 
 OBLIGATION_MODULES = ["PyModeS.Properties.C13"]
-TIE_MODULES = ['PyModeS.Tie.Bds61', 'PyModeS.Tie.Bds62', 'PyModeS.Tie.Adsb', 'PyModeS.Tie.C13Gen']
+TIE_MODULES = ['PyModeS.Tie.Bds61', 'PyModeS.Tie.Bds62', 'PyModeS.Tie.Adsb', 'PyModeS.Tie.C13Gen', 'PyModeS.Tie.C13GenB']
 MAIN_THEOREM = "PyModeS.C13.* (field theorems, table totality / monotonicity)"
 RULE = ("every value of each TC28/29/31 field x subtype with random other bits; TC 5..22 x NIC supplements x version; "
         "8 emergency states x subtypes; non-trivial = value expected")
